@@ -105,6 +105,8 @@ class Job:
         self.rc = None
         self.wall = 0.0
         self.build_ok = None
+        self.keep_raw = False
+        self.raw = []
 
     def key(self):
         cc, flags = CONFIGS[self.config]
@@ -168,6 +170,8 @@ def run(job):
     for line in out.split("\n"):
         line = line.strip()
         if not line.startswith("{"):
+            if job.keep_raw and line:
+                job.raw.append(line)
             continue
         try:
             r = json.loads(line)
@@ -322,6 +326,22 @@ class Result:
                                         "witnesses": r["w"], "site": s.get("site"), "chain": s.get("chain"),
                                         "binary": job.binary, "job": job.name})
         return nk
+
+    def add_tally(self, job, kernel, judged, ood, nontrivial, kinds=None, classes=None, samples=(), violations=None):
+        """fold a tally computed by an offline (python) checker; violations: {cls: (count, [witness dicts])}"""
+        self.evaluations += judged
+        self.ood += ood
+        self.per_kernel_nontrivial[kernel] = max(self.per_kernel_nontrivial.get(kernel, 0), nontrivial)
+        for k, v in (kinds or {}).items():
+            self.kinds[k] = self.kinds.get(k, 0) + v
+        for k, v in (classes or {}).items():
+            self.classes[k] = self.classes.get(k, 0) + v
+        if len(self.samples) < 12:
+            for s in list(samples)[:1]:
+                self.samples.append(dict(s, config=job.config, kernel=kernel))
+        for cls, (n, ws) in (violations or {}).items():
+            self.violations.append({"config": job.config, "kernel": kernel, "cls": cls, "count": n, "witnesses": ws[:4], "site": None, "chain": None,
+                                    "binary": job.binary, "job": job.name})
 
     def finish(self, rule, level_text=None, assumptions=(), extra=None, min_nontrivial=2):
         known = load_known(self.prop)
